@@ -564,6 +564,16 @@ func Explore() {
 	}
 }
 
+// Freeze ends the explored part of an execution: from here on every choice
+// point takes its default answer and is not recorded (a scenario's final
+// probing phase, whose own schedule is not the subject, runs on the default
+// schedule only - this keeps the deviations for the part under test).
+func Freeze() {
+	if R != nil {
+		R.exploring = false
+	}
+}
+
 // Exploring reports whether Explore was called in this execution.
 func Exploring() bool { return R != nil && R.exploring }
 
